@@ -916,6 +916,32 @@ func threadFacts() []callSite {
 			out = append(out, callSite{op.op, n.name, ctx})
 		}
 	}
+	// a main-only operation used as a VALUE (method value `f := db.Save; go f()`, method expression, callback argument
+	// `time.AfterFunc(d, db.AbortWriting)`) has no call expression naming it: the flow analysis above makes the operation's own
+	// node an asynchronous root / reachable from one. That is a site executed by another goroutine.
+	for _, n := range tw.nodes {
+		if n.obj == nil || !isMainOnlyOp(n.obj) {
+			continue
+		}
+		if foreignRoots[n] {
+			out = append(out, callSite{n.obj.Name(), "(function value: started as a goroutine or handed to a callback)", 1})
+		} else if inForeign[n] {
+			direct := false
+			for _, m := range tw.nodes {
+				if !inForeign[m] {
+					continue
+				}
+				for _, op := range m.sites {
+					if op.op == n.obj.Name() {
+						direct = true
+					}
+				}
+			}
+			if !direct {
+				out = append(out, callSite{n.obj.Name(), "(function value called by another goroutine)", 1})
+			}
+		}
+	}
 	sort.Slice(out, func(i, j int) bool {
 		if out[i].op != out[j].op {
 			return out[i].op < out[j].op
